@@ -31,6 +31,9 @@ pub struct Case {
     /// guarded point, i.e. one before the run's own records are written)
     #[serde(default)]
     pub series: Vec<u16>,
+    /// the last completed run before the victim is one that failed (an executable exits 1)
+    #[serde(default)]
+    pub last_baseline_fails: bool,
 }
 
 pub fn strategy(kills: usize, enumerate: bool, all_hits: bool) -> impl Strategy<Value = Case> {
@@ -49,6 +52,7 @@ pub fn strategy_series(kills: usize, enumerate: bool, all_hits: bool, series: us
         vec(any::<u16>(), if series == 0 { 0..=0 } else { 2..=series }),
     )
         .prop_map(move |(m, b, checkpoint, layers, picks, sleeps, kills, series)| Case {
+            last_baseline_fails: picks[0] % 3 == 0,
             series,
             max_retained: m,
             baseline_runs: b.min(m + 1),
@@ -166,11 +170,18 @@ pub fn check(case: &Case, w: usize) -> CheckResult {
         }
     }
     for b in 0..case.baseline_runs {
-        bb::install_simple(&env, &cfg, &plan_for(&format!("baseline{}", b), false));
+        let mut plan = plan_for(&format!("baseline{}", b), false);
+        let fails = case.last_baseline_fails && b + 1 == case.baseline_runs;
+        if fails {
+            if let Some(beh) = plan.values_mut().next() {
+                beh.exit = 1;
+            }
+        }
+        bb::install_simple(&env, &cfg, &plan);
         let argv: Vec<&str> = base_args.iter().map(|s| s.as_str()).collect();
         let o = env.mr(&argv);
-        if !o.ok() {
-            return inconclusive(format!("baseline run failed: {}", o.brief()));
+        if (!fails && !o.ok()) || (fails && o.code != Some(1)) {
+            return inconclusive(format!("baseline run did not end as planned: {}", o.brief()));
         }
     }
     bb::install_simple(&env, &cfg, &plan_for("victim", true));
@@ -371,6 +382,7 @@ pub fn check(case: &Case, w: usize) -> CheckResult {
     info = info
         .class_if(case.checkpoint, "with-checkpoint")
         .class_if(case.baseline_runs == 0, "no-previous-run")
+        .class_if(case.last_baseline_fails && case.baseline_runs > 0, "last-completed-run-had-failed")
         .class_if(case.baseline_runs > case.max_retained, "slots-wrapped")
         .class(&format!("M={}", case.max_retained));
     info.invocations = env.invocations;
